@@ -1187,3 +1187,94 @@ mutant("c15-nan-padded-array-equal", "C15", "R15.a", INST,
        "        return self.jobs == other.jobs",
        "        if not np.array_equal(self.durations_matrix_array, other.durations_matrix_array):\n            return False\n        return self.jobs == other.jobs",
        "NaN-padded view compared without equal_nan: equal ragged instances compare unequal")
+
+# ------------------------------------------------------------------ round-8 seeds distilled (both ways)
+_D_INIT = "        self._cache: dict[str, Any] = {}\n"
+_D_UPD = "        self._job_next_available_time[job_id] = end_time\n        self._cache = {}\n"
+_v("c14-field-aliases-cached-view", "C14", "mutant", "R14.a", [
+    (DISP, _D_INIT, "        self._job_remaining_work = self.instance.job_durations\n" + _D_INIT),
+    (DISP, _D_UPD, "        self._job_next_available_time[job_id] = end_time\n        self._job_remaining_work[job_id] -= scheduled_operation.operation.duration\n        self._cache = {}\n"),
+], "round-8 seed C04-z1KC: a tracking vector bound to the instance's cached view in one method, decremented in another")
+_v("c14-r-field-copies-cached-view", "C14", "refactor", None, [
+    (DISP, _D_INIT, "        self._job_remaining_work = list(self.instance.job_durations)\n" + _D_INIT),
+    (DISP, _D_UPD, "        self._job_next_available_time[job_id] = end_time\n        self._job_remaining_work[job_id] -= scheduled_operation.operation.duration\n        self._cache = {}\n"),
+], "the same counter over a copy touches nothing of the instance")
+
+_ORT_INIT = "        self._operations_start: dict[Operation, tuple[IntVar, IntVar]] = {}\n\n"
+_ORT_RET = "        return self._create_schedule(instance, metadata)\n"
+_ORT_SCH = "        return Schedule(\n            instance=instance, schedule=sorted_schedule, **metadata\n        )\n"
+_v("c03-shared-run-report", "C03", "mutant", "R03.g", [
+    (ORT, _ORT_INIT, "        self._operations_start: dict[Operation, tuple[IntVar, IntVar]] = {}\n        self.last_run: dict[str, Any] = {}\n\n"),
+    (ORT, _ORT_RET, "        self.last_run.update(metadata)\n        return self._create_schedule(instance, self.last_run)\n"),
+    (ORT, _ORT_SCH, "        result = Schedule(instance=instance, schedule=sorted_schedule)\n        result.metadata = metadata\n        return result\n"),
+], "round-8 seed C03-z1KI: the report dict of the solver is updated in place by every solve and stored uncopied in each schedule")
+_v("c03-r-run-report-rebound", "C03", "refactor", None, [
+    (ORT, _ORT_INIT, "        self._operations_start: dict[Operation, tuple[IntVar, IntVar]] = {}\n        self.last_run: dict[str, Any] = {}\n\n"),
+    (ORT, _ORT_RET, "        self.last_run = metadata\n        return self._create_schedule(instance, self.last_run)\n"),
+    (ORT, _ORT_SCH, "        result = Schedule(instance=instance, schedule=sorted_schedule)\n        result.metadata = metadata\n        return result\n"),
+], "a fresh dict per solve, merely also remembered by the solver: earlier schedules keep theirs")
+_v("c03-narrowed-domains-refused", "C03", "refusal", None, [
+    (ORT, "0, instance.total_duration, f\"start_{operation}\"", "0, instance.total_duration - operation.duration, f\"start_{operation}\""),
+], "a domain other than [0, total duration] may or may not cut off the optimum: no verdict, never a silent pass is required - but no VIOLATION either")
+
+_v("c07-new-query-uses-global-ready-list", "C07", "mutant", "R07.g", [
+    (DISP, "    def subscribe(self, observer: DispatcherObserver):", "    def busy_machines(self) -> set[int]:\n        current_time = self.min_start_time(self.raw_ready_operations())\n        busy = set()\n        for machine_schedule in self.schedule.schedule:\n            for scheduled_operation in reversed(machine_schedule):\n                if scheduled_operation.end_time <= current_time:\n                    break\n                busy.add(scheduled_operation.machine_id)\n        return busy\n\n    def subscribe(self, observer: DispatcherObserver):"),
+    (FILT, "    current_time = dispatcher.min_start_time(operations)\n    non_idle_machines = _get_non_idle_machines(dispatcher, current_time)\n", "    non_idle_machines = dispatcher.busy_machines()\n"),
+], "round-8 seed C07-z2KC: a new zero-argument query cannot know the list the filter was given")
+_v("c07-r-new-query-takes-the-list", "C07", "refactor", None, [
+    (DISP, "    def subscribe(self, observer: DispatcherObserver):", "    def busy_machines(self, operations) -> set[int]:\n        current_time = self.min_start_time(operations)\n        busy = set()\n        for machine_schedule in self.schedule.schedule:\n            for scheduled_operation in reversed(machine_schedule):\n                if scheduled_operation.end_time <= current_time:\n                    break\n                busy.add(scheduled_operation.machine_id)\n        return busy\n\n    def subscribe(self, observer: DispatcherObserver):"),
+    (FILT, "    current_time = dispatcher.min_start_time(operations)\n    non_idle_machines = _get_non_idle_machines(dispatcher, current_time)\n", "    non_idle_machines = dispatcher.busy_machines(operations)\n"),
+], "the same query with the list as argument")
+
+_TL_OLD = "        first_non_comment_line_reached = False\n        jobs = []\n        for line in lines:\n            line = line.strip()\n            if line.startswith(comment_symbol):\n                continue\n            if not first_non_comment_line_reached:\n                first_non_comment_line_reached = True\n                continue\n\n            row = list(map(int, line.split()))\n            pairs = zip(row[::2], row[1::2])\n            operations = [\n                Operation(machines=machine_id, duration=duration)\n                for machine_id, duration in pairs\n            ]\n            jobs.append(operations)\n"
+_v("c14-taillard-fixed-row-length", "C14", "mutant", "R14.j", [
+    (INST, _TL_OLD, "        numbers: list[int] = []\n        for line in lines:\n            line = line.strip()\n            if not line or line.startswith(comment_symbol):\n                continue\n            numbers.extend(map(int, line.split()))\n        num_jobs, num_machines = numbers[:2]\n        body = numbers[2:]\n        width = 2 * num_machines\n        jobs = []\n        for job_id in range(num_jobs):\n            row = body[job_id * width : (job_id + 1) * width]\n            jobs.append([Operation(machines=m, duration=d) for m, d in zip(row[::2], row[1::2])])\n"),
+], "round-8 seed C14-z2KF: rows cut out of the pooled numbers with the header's sizes")
+_v("c14-r-taillard-comprehension", "C14", "refactor", None, [
+    (INST, _TL_OLD, "        data = [ln.strip() for ln in lines if not ln.strip().startswith(comment_symbol)]\n        jobs = []\n        for text_line in data[1:]:\n            row = [int(tok) for tok in text_line.split()]\n            jobs.append([Operation(machines=m, duration=d) for m, d in zip(row[::2], row[1::2])])\n"),
+], "still one job per line")
+
+_v("c11-job-total-over-operations-by-machine", "C11", "mutant", "R11.i", [
+    (DUR, "        job_durations = self.dispatcher.instance.job_durations\n        for job_id, job_duration in enumerate(job_durations):\n            self.features[FeatureType.JOBS][job_id, 0] = job_duration\n",
+     "        self.features[FeatureType.JOBS][:, 0] = 0\n        for operations in self.dispatcher.instance.operations_by_machine:\n            for operation in operations:\n                self.features[FeatureType.JOBS][operation.job_id, 0] += operation.duration\n"),
+], "round-8 seed C11-z2KH: a flexible operation is listed under each of its machines")
+_v("c11-r-machine-total-over-operations-by-machine", "C11", "refactor", None, [
+    (DUR, "        machine_durations = self.dispatcher.instance.machine_loads\n        for machine_id, machine_load in enumerate(machine_durations):\n            self.features[FeatureType.MACHINES][machine_id, 0] = machine_load\n",
+     "        self.features[FeatureType.MACHINES][:, 0] = 0\n        for machine_id, operations in enumerate(self.dispatcher.instance.operations_by_machine):\n            for operation in operations:\n                self.features[FeatureType.MACHINES][machine_id, 0] += operation.duration\n"),
+], "per-machine totals over the per-machine lists are machine_loads by definition")
+
+_IDLE_UPD = "    def update(self, scheduled_operation: ScheduledOperation):\n        machine_id = scheduled_operation.machine_id\n        machine_schedule = self.dispatcher.schedule.schedule[machine_id][:-1]\n\n        if machine_schedule:\n            last_operation = machine_schedule[-1]\n            idle_time = (\n                scheduled_operation.start_time - last_operation.end_time\n            )\n        else:\n            idle_time = scheduled_operation.start_time\n\n        reward = -idle_time\n        self.rewards.append(reward)\n"
+def _idle(guard):
+    return (
+        "    def __init__(self, dispatcher, *, subscribe=True):\n        super().__init__(dispatcher, subscribe=subscribe)\n"
+        "        self._last_end = [0] * dispatcher.instance.num_machines\n        self._sync()\n\n"
+        "    def reset(self) -> None:\n        super().reset()\n        self._sync()\n\n"
+        "    def _sync(self) -> None:\n        for machine_id, machine_schedule in enumerate(self.dispatcher.schedule.schedule):\n"
+        + guard +
+        "            self._last_end[machine_id] = machine_schedule[-1].end_time if machine_schedule else 0\n\n"
+        "    def update(self, scheduled_operation: ScheduledOperation):\n        machine_id = scheduled_operation.machine_id\n"
+        "        idle_time = scheduled_operation.start_time - self._last_end[machine_id]\n"
+        "        self._last_end[machine_id] = scheduled_operation.end_time\n        self.rewards.append(-idle_time)\n"
+    )
+_v("c12-entrywise-restore-skips-empty", "C12", "mutant", "R12.a", [(REW, _IDLE_UPD, _idle("            if not machine_schedule:\n                continue\n"))],
+   "round-8 seed C13-z2KH: the entry-wise restore skips machines whose schedule is empty, i.e. all of them after a reset")
+_v("c12-r-entrywise-restore-complete", "C12", "refactor", None, [(REW, _IDLE_UPD, _idle(""))], "every entry is overwritten on reset")
+
+_GUP_RESET = "        self.job_shop_graph = deepcopy(self.initial_job_shop_graph)\n"
+def _gup(mark):
+    return [
+        (GUP, "        self.job_shop_graph = job_shop_graph\n", "        self.job_shop_graph = job_shop_graph\n        self._is_modified = False\n"),
+        (GUP, _GUP_RESET, "        if not self._is_modified:\n            return\n" + _GUP_RESET + "        self._is_modified = False\n"),
+        (RGU, "        remove_completed_operations(\n            self.job_shop_graph,\n            completed_operations=self.dispatcher.completed_operations(),\n        )\n", mark),
+    ]
+_v("c12-reset-skipped-unless-flagged", "C12", "mutant", "R12.a", _gup(
+    "        if self.dispatcher.completed_operations():\n            self._is_modified = True\n        remove_completed_operations(\n            self.job_shop_graph,\n            completed_operations=self.dispatcher.completed_operations(),\n        )\n"),
+    "round-8 seed C12-z2KA: machine / job nodes are removed on paths that do not raise the flag")
+_v("c12-r-reset-skipped-unless-flagged-always-raised", "C12", "refactor", None, _gup(
+    "        self._is_modified = True\n        remove_completed_operations(\n            self.job_shop_graph,\n            completed_operations=self.dispatcher.completed_operations(),\n        )\n"),
+    "the flag is raised on every path of update: skipping the copy is sound")
+
+_v("c16-same-job-window", "C16", "mutant", "R16.e", [
+    (BAT, "        for operation1, operation2 in itertools.combinations(job, 2):\n            graph.add_edge(operation1, operation2)\n            graph.add_edge(operation2, operation1)\n",
+     "        reach = graph.instance.num_machines\n        for position, operation1 in enumerate(job):\n            for operation2 in itertools.islice(job, position + 1, position + 1 + reach):\n                graph.add_edge(operation1, operation2)\n                graph.add_edge(operation2, operation1)\n"),
+], "round-8 seed C16-z2KE: a window whose width is not the length of the job")
